@@ -104,6 +104,15 @@ def build(tier: str) -> List[Cond]:
         conds.append(Cond(oid=f"deferred/static/value={form or '-'}", clause="unresolvable modification parses; mass/comp raise a ValueError-family error",
                           module="vf.h.c09", func="o_deferred", shape=dict(slot="static", tail="", form=form), sym=[("dummy", "bool")], pre=[], timeout=t,
                           functions=FUNCS, bounds="concrete value (regex is a realisation point)"))
+    for slot in ("static+ok", "ok+static", "staticN+ok", "ok+staticC", "static-multi"):
+        for tail in ("", "q"):
+            conds.append(Cond(oid=f"deferred/{slot}/tail={tail or '-'}", clause="an unresolvable modification next to a resolvable one still makes mass/comp raise",
+                              module="vf.h.c09", func="o_deferred", shape=dict(slot=slot, tail=tail), sym=[("dummy", "bool")], pre=[], timeout=t,
+                              functions=FUNCS, bounds="concrete value (static rules reach the regex C extension)"))
+    for slot in ("res+ok", "ok+res"):
+        conds.append(Cond(oid=f"deferred/{slot}", clause="an unresolvable modification next to a resolvable one still makes mass/comp raise",
+                          module="vf.h.c09", func="o_deferred", shape=dict(slot=slot), sym=[("tail", "str")],
+                          pre=["len(tail) <= 1", "all(c in 'qxz' for c in tail)"], timeout=t, functions=FUNCS, bounds="value 'xq'+tail"))
     # the corpus of unresolvable / malformed values around a symbolic tail: the empty value, empty and unknown '|' alternatives,
     # tagged and prefixed unknown names
     FORMS = ["%s", "%s|", "|%s", "xq%s|", "xq|%s", "xq%s#g1", "Obs:xq%s", "U:xq%s"]
